@@ -161,7 +161,7 @@ Proof.
       - unfold c1. rewrite write_front_absent by exact Ec. split; [exact Ec|]. split; [reflexivity|exact Hnc].
       - destruct (write_front_all k0 l0 c d) as (W1 & W2 & W3).
         + rewrite Ec. discriminate.
-        + exact Hu0.
+        + rewrite Ec. exact Hu0.
         + exact Hn0.
         + exact Hi0.
         + fold c1 in W1, W2, W3. rewrite Ec in W1. split; [exact W1|]. split; [exact W2|exact (W3 Hnc)]. }
@@ -306,6 +306,7 @@ Proof.
       rewrite Hplen in Ht. f_equal. lia.
     + exact Hpar.
   - (* onlineroundparamstail *)
+    change (match o_params s with [] => [] | _ :: l => skipn (dn - hm) l end) with (skipn (Datatypes.S (dn - hm)) (o_params s)).
     rewrite Hdbp. rewrite Hpar. rewrite skipn_map, firstn_map, skipn_seq, firstn_seq' by lia.
     replace (hm + Datatypes.S (dn - hm))%nat with (Datatypes.S dn) by lia.
     replace (dn' - hm - (dn - hm))%nat with off by (unfold dn'; lia).
@@ -395,7 +396,7 @@ Proof.
             rewrite view_app_new by (apply latest_le_none_all; exact Hw1).
             symmetry. apply view_beyond; [exact Hupd|lia]. }
     destruct Hacc1 as (Hu1 & Ha1).
-    destruct (prune_addr_prefix (N.of_nat dn' + 1 - op_maxbal p) (tget k cache1)) as [E|(dropped & E)].
+    destruct (prune_addr_prefix fb0 (tget k cache1)) as [E|(dropped & E)].
     + rewrite E. split; [intros ? []|intros ? ? _ _ Hc; discriminate].
     + split.
       * intros e He. apply Hu1. rewrite E. apply in_or_app. left; exact He.
